@@ -205,7 +205,7 @@ func (c *Ctx) c18Total() {
 func (c *Ctx) c18Order() {
 	r, p := c.R, c.P
 	fn := p.Func(sanRel, "HTML")
-	tagFilter := p.Func(sanRel, "styleTagFilter")
+	tagFilter := c.c18TagFilter()
 	if fn == nil || tagFilter == nil {
 		return
 	}
@@ -334,7 +334,7 @@ func (c *Ctx) c18Order() {
 
 func (c *Ctx) c18Attr() {
 	r, p := c.R, c.P
-	fn := p.Func(sanRel, "styleTagFilter")
+	fn := c.c18TagFilter()
 	cssFilter := p.Func(sanRel, "sanitizeStyle")
 	if fn == nil || cssFilter == nil {
 		return
@@ -889,7 +889,32 @@ func (c *Ctx) c18CSS() {
 		}
 		return false
 	}
-	nBoolStates := 0
+	nBoolStates, nGuardedRet := 0, 0
+	// isHandlerResult: v is the string a token handler returned: result of a call (static or
+	// through a function value) that was given a scanner token
+	isHandlerResult := func(v ssa.Value) bool {
+		call, _ := eng.CallAndIndex(v)
+		if call == nil || call.Call.IsInvoke() {
+			return false
+		}
+		if g := eng.StaticCallee(call.Common()); g != nil {
+			isState := false
+			for _, sfn := range states {
+				if sfn == g {
+					isState = true
+				}
+			}
+			if !isState {
+				return false
+			}
+		}
+		for _, a := range call.Call.Args {
+			if isScannerToken(a.Type()) {
+				return true
+			}
+		}
+		return false
+	}
 	unguarded := map[*ssa.Function]bool{}
 	enumStates := map[enumState]string{}
 	var probs []string
@@ -902,10 +927,15 @@ func (c *Ctx) c18CSS() {
 				return
 			}
 			name := eng.CalleeName(call.Common())
-			if !strings.HasPrefix(name, "(*bytes.Buffer).Write") || len(call.Call.Args) < 2 {
+			if !(strings.HasPrefix(name, "(*bytes.Buffer).Write") || strings.HasPrefix(name, "(*strings.Builder).Write")) || len(call.Call.Args) < 2 {
 				return
 			}
 			nWrites++
+			// the text a state handler returned for this token (emit, next := state(t)): judged
+			// at the handlers' own returns, below
+			if isHandlerResult(call.Call.Args[1]) {
+				return
+			}
 			if !isTokenText(call.Call.Args[1], 0) {
 				return
 			}
@@ -917,6 +947,39 @@ func (c *Ctx) c18CSS() {
 				return
 			}
 			if boolGuard(fn, call.Block()) {
+				nBoolStates++
+				return
+			}
+			unguarded[fn] = true
+		})
+	}
+	// state handlers that hand their output back instead of writing it (func(t) (emit string,
+	// next stateHandler)): a returned token text is a write
+	for _, fn := range states {
+		fn := fn
+		res := fn.Signature.Results()
+		if res.Len() == 0 || !isString(res.At(0).Type()) {
+			continue
+		}
+		eng.EachInstr(fn, func(in ssa.Instruction) {
+			ret, ok := in.(*ssa.Return)
+			if !ok {
+				return
+			}
+			rv := eng.ReturnResults(ret)[0]
+			nWrites++
+			if !isTokenText(rv, 0) {
+				return
+			}
+			if okEdge(fn, ret.Block()) && isTokenValue(rv) {
+				nGuardedRet++
+				return
+			}
+			if es, ok := stateGuard(fn, ret.Block()); ok {
+				enumStates[es] = p.InstrPos(ret)
+				return
+			}
+			if boolGuard(fn, ret.Block()) {
 				nBoolStates++
 				return
 			}
@@ -1016,7 +1079,7 @@ func (c *Ctx) c18CSS() {
 			}
 		})
 	}
-	if !guardedWriter {
+	if !guardedWriter && nGuardedRet == 0 {
 		probs = append(probs, "no state writes a property identifier under the allow-list lookup: either nothing or everything is copied")
 	}
 	// error token → ""
@@ -1447,6 +1510,62 @@ func helperPassesThrough(g *ssa.Function, prm *ssa.Parameter, allowed map[string
 			return derives(bo.X, d+1) || derives(bo.Y, d+1)
 		}
 		call, ok := v.(*ssa.Call)
+		// a strings.Builder filled from the parameter's own bytes and constant, balanced
+		// markup (a hand-written replacer): anything taken from the escaped text carries no
+		// markup character, whatever is kept, dropped or reordered
+		if ok && eng.CalleeName(call.Common()) == "(*strings.Builder).String" {
+			sb := call.Call.Args[0]
+			if sb.Referrers() == nil {
+				return false
+			}
+			fromPrm := func(x ssa.Value) bool {
+				x = eng.StripConv(x)
+				switch y := x.(type) {
+				case *ssa.Lookup:
+					return y.X == ssa.Value(prm)
+				case *ssa.Index:
+					return y.X == ssa.Value(prm)
+				case *ssa.Slice:
+					return y.X == ssa.Value(prm)
+				}
+				return x == ssa.Value(prm)
+			}
+			some := false
+			for _, ref := range *sb.Referrers() {
+				wc, isCall := ref.(*ssa.Call)
+				if !isCall || wc == call {
+					continue
+				}
+				switch eng.CalleeName(wc.Common()) {
+				case "(*strings.Builder).WriteString":
+					if cs, isC := eng.ConstString(wc.Call.Args[1]); isC {
+						if !balancedMarkup(cs) {
+							return false
+						}
+						continue
+					}
+					if !fromPrm(wc.Call.Args[1]) {
+						return false
+					}
+					some = true
+				case "(*strings.Builder).WriteByte", "(*strings.Builder).WriteRune":
+					if k, isC := eng.ConstInt(wc.Call.Args[1]); isC {
+						if strings.ContainsRune("<>\"'", rune(k)) {
+							return false
+						}
+						continue
+					}
+					if !fromPrm(wc.Call.Args[1]) {
+						return false
+					}
+					some = true
+				case "(*strings.Builder).Grow", "(*strings.Builder).Len", "(*strings.Builder).Reset":
+				default:
+					return false
+				}
+			}
+			return some
+		}
 		if !ok || !allowed[eng.CalleeName(call.Common())] {
 			return false
 		}
@@ -1615,4 +1734,29 @@ func balancedMarkup(s string) bool {
 		}
 	}
 	return !open && dq%2 == 0 && sq%2 == 0
+}
+
+// c18TagFilter finds the tag rewriter by what it does: the one top-level function of the
+// sanitiser package that creates the HTML tokenizer (styleTagFilter today).
+func (c *Ctx) c18TagFilter() *ssa.Function {
+	p := c.P
+	var cands []*ssa.Function
+	for _, fn := range pkgFuncs(p, sanRel) {
+		fn := fn
+		eng.EachInstr(fn, func(in ssa.Instruction) {
+			if ci, ok := in.(ssa.CallInstruction); ok {
+				n := eng.CalleeName(ci.Common())
+				if strings.HasSuffix(n, "html.NewTokenizer") || strings.HasSuffix(n, "html.NewTokenizerFragment") {
+					cands = append(cands, eng.Outer(fn))
+				}
+			}
+		})
+	}
+	if len(cands) == 1 {
+		return cands[0]
+	}
+	if fn := p.Func(sanRel, "styleTagFilter"); fn != nil {
+		return fn
+	}
+	return nil
 }
